@@ -217,6 +217,38 @@ def run(ctx):
                     res.violation("C04:gplus-length:tal", "Gopher+ length header of a generated document differs from its body length",
                                   {"handlers": "full", "selector": "/t.html.tal"}, observed=hdr, required=b"+%d or +-2" % len(body),
                                   replay={"handlers": "full", "protocol": "gopherp", "name": "t.html.tal", "data_latin1": "", "size": 0})
+        # a document that is replaced between two requests (same process, seconds apart): every answer is about the file as it is now
+        cfg_h = pyg.make_config(tree.root, **{"handlers.dir.DirHandler|cachetime": "0"})
+        for vi in range(ctx.n(3, 20)):
+            nm = "versions/v%d.txt" % vi
+            versions = [bytes(ctx.rng.randrange(256) for _ in range(ctx.rng.choice([0, 1, 11, 768, 4097, 8209]))) for _ in range(3)]
+            for gen_i, data in enumerate(versions):
+                tree.write(nm, data)
+                os.utime(tree.path(nm), (1_700_000_000 + gen_i, 1_700_000_000 + gen_i))
+                for p, gp in (("gopherp", "+"), ("gopherp", "$"), ("http", "+"), ("gopher", "+"), ("gopherp", "!")):
+                    r = pyg.request(reqs.build(p, "/" + nm, gplus=gp), cfg_h, reset=False)
+                    res.evaluations += 1
+                    out = r.out or b""
+                    inp = {"selector": "/" + nm, "protocol": p, "gplus": gp, "version": gen_i, "sizes": [len(v) for v in versions]}
+                    rp = {"handlers": "shipped", "protocol": p, "name": "v.txt", "data_latin1": "", "size": len(data)}
+                    res.nontrivial.add(("replaced", vi, gen_i, p, gp))
+                    if p == "gopherp" and gp in "+$":
+                        k = out.find(b"\r\n")
+                        hdr, body = out[:k], out[k + 2:]
+                        if body != data or not (hdr == b"+-2" or hdr == b"+%d" % len(body)):
+                            res.violation("C04:gplus-length:replaced-file", "after a file was replaced, the Gopher+ length header or body is not the file's as it is now",
+                                          inp, observed={"header": hdr, "body_len": len(body)}, required={"len": len(data)}, replay=rp)
+                    elif p == "gopherp":
+                        if (b"<%dk>" % (len(data) // 1024)) not in out:
+                            res.violation("C04:views-size:replaced-file", "after a file was replaced, +VIEWS does not give its current size", inp,
+                                          observed=out[-120:], required=b"<%dk>" % (len(data) // 1024), replay=rp)
+                    elif p == "http":
+                        if reqs.body_of("http", out) != data:
+                            res.violation("C04:body:replaced-file", "after a file was replaced, the body is not the file's bytes as they are now", inp,
+                                          observed=len(reqs.body_of("http", out)), required=len(data), replay=rp)
+                    elif out != data:
+                        res.violation("C04:body:replaced-file", "after a file was replaced, the body is not the file's bytes as they are now", inp,
+                                      observed=len(out), required=len(data), replay=rp)
         # decompressed documents (decompressors configured): the body is the decompressed bytes in every protocol and the
         # Gopher+ header is truthful about THAT body (the subprocess writes to the descriptor, so the response goes to a real file)
         import gzip
